@@ -232,7 +232,7 @@ Definition m_in (neg : bool) (x : monad) (items : list lit) : monad :=
 Definition m_if (c t f : monad) : monad :=
   if is_err c || is_err t || is_err f || is_nonem c then MErr else
   let c' := if is_boolm c then Some c
-            else match c with MVal _ TStr _ _ => Some (m_nonzero c) | _ => None end in   (* numeric test: AttributeError *)
+            else match c with MVal _ _ _ _ => Some (m_nonzero c) | _ => None end in      (* a value as test: tested for truth *)
   match c', mvty t, mvty f with
   | Some c', Some t1, Some t2 =>
       match coerce_vty t1 t2 with
@@ -294,6 +294,8 @@ Fixpoint tr (e : expr) : monad :=
   | ENone => MNone
   | EParam i (Some t) => MVal KParam t false (QParam i)
   | EParam _ None => MNone
+  | ECol i t n => MVal KExpr t n (QCol i)              (* ExprMonad.new(t, <scalar subquery>, nullable=n) *)
+  | ESub i => MBoolExpr (QCol i) false               (* BoolExprMonad(['EXISTS' | 'IN', ...], nullable=False) *)
   | EArith op a b => m_arith op (tr a) (tr b)
   | ENeg a => m_unary QNeg (tr a)
   | EAbs a => m_unary QAbs (tr a)
